@@ -50,6 +50,10 @@ type Scenario struct {
 	// Single runs only the default schedule (no alternatives): for scenarios whose
 	// point is the input or history, with too many threads to interleave.
 	Single bool
+	// NoPost: no scheduling points after release operations (for scenarios whose threads poll in
+	// loops of lock/unlock pairs, where those points multiply the schedules without adding behaviours
+	// the scenario is about).
+	NoPost bool
 	// MemPB is the preemption bound of the plain-memory pass (0: the default, 2; <0: no such pass).
 	MemPB int
 }
@@ -217,6 +221,7 @@ func (e *explorer) runOne(prefix []int, trace bool, cache bool) (*vs.Result, Exe
 		s.MaxTime = e.scn.MaxTime
 	}
 	s.Trace = trace
+	s.NoPost = e.scn.NoPost
 	s.MemPoints = e.mem
 	judge := e.scn.Setup(s)
 	if cache {
